@@ -978,6 +978,11 @@ class IMAPUserServer:
         if name.lower() == "inbox":
             name = "inbox"
 
+        # A mailbox is a folder inside of our mail directory, nothing else.
+        #
+        if not asimap.mbox.mbox_name_is_inside(name):
+            raise NoSuchMailbox(f"No such mailbox: '{name}'")
+
         # if not self.folder_exists(name):
         if not name.strip() or not self.folder_exists(name):
             raise NoSuchMailbox(f"No such mailbox: '{name}'")
